@@ -576,11 +576,12 @@ class Engine:
             # cond is implied: keep the state as is (do not grow the constraint set) unless opaque atoms
             if all(x[0] != "opq" for a in talts for x in a) or len(talts) == 1:
                 if len(talts) == 1:
-                    self.add_cons(st, [x for x in talts[0] if x[0] == "opq"])
+                    # implied: record opaque atoms and the (cheap, interval-refining) single-atom facts only
+                    self.add_cons(st, [x for x in talts[0] if x[0] == "opq" or len(x[0].c) == 1])
                 return [st], []
         if not talts and len(falts) >= 1:
             if len(falts) == 1:
-                self.add_cons(st, [x for x in falts[0] if x[0] == "opq"])
+                self.add_cons(st, [x for x in falts[0] if x[0] == "opq" or len(x[0].c) == 1])
                 return [], [st]
         ts, fs = [], []
         total = len(talts) + len(falts)
